@@ -245,15 +245,16 @@ def run(ctx):
     ctx.check(not extra and not lost and len(roots_a) == len(roots), "CD", "same-parse-path", "from the public roots of the minimal build, the default build reaches exactly the "
               "same repo functions, resolved to the same code (no feature-gated override or helper on the parse path)", "",
               how="%d instances in both closures" % len(cl_a), why="only with features: %s; only without: %s" % (extra[:6], lost[:6]))
+    # debug assertions are a profile switch of their own (on in dev, off in release): decided in every tier
+    FD = ctx.F("D")
+    only_a2, only_d, diff_d, common_d = CD.diff(FA, FD)
+    ctx.check(not diff_d and not only_d and not only_a2, "CD", "A-vs-D",
+              "bodies identical with debug assertions enabled: no debug_assert!/cfg!(debug_assertions) in the crates (%d bodies)" % common_d, "",
+              how="hash-equal", why="differing: %s; only with: %s; only without: %s" % (diff_d[:8], only_d[:4], only_a2[:4]))
     if ctx.tier == "thorough":
         FC = ctx.F("C")
-        FD = ctx.F("D")
         _, only_c, diff_c, common_c = CD.diff(FA, FC)
         ctx.check(not diff_c and not only_c, "CD", "A-vs-C", "bodies identical with the alloc feature only (%d common)" % common_c, "", how="hash-equal", why=str(diff_c[:8]))
-        only_a2, only_d, diff_d, common_d = CD.diff(FA, FD)
-        ctx.check(not diff_d and not only_d and not only_a2, "CD", "A-vs-D",
-                  "bodies identical with debug assertions enabled: no debug_assert!/cfg!(debug_assertions) in the crates (%d bodies)" % common_d, "",
-                  how="hash-equal", why="differing: %s" % diff_d[:8])
     ctx.note("equality of *outcomes* is not computed: the check decides the absence of the known sources of divergence; a discharged site cannot diverge")
     return ctx.finish(
         "other",
